@@ -55,6 +55,28 @@ InSubOps ==
         [op |-> "map2", g |-> "G1", u0 |-> InSub1[3], u1 |-> FqPow(<<3>>, <<777>>), cls |-> "one-image-in-subgroup"] >>
 
 
+(***************************************************************************)
+(* G1 inputs u whose SWU image is a point of the KERNEL of the 11-isogeny: *)
+(* the RFC composition gives the identity for them (map_to_curve(u) = O,   *)
+(* map2_to_curve(u, v) = map_to_curve(v)), and any slip in how a stage     *)
+(* represents "the image is the point at infinity" shows only here.  The   *)
+(* kernel abscissae are the Fq-roots of the x-denominator; the inputs are  *)
+(* found by inverting the SWU map as above and certified by evaluation.    *)
+(***************************************************************************)
+KerXs == RootsOf(DistinctRootPart(Iso1XDEN), 1)
+KerPts == FlattenSeq([i \in 1..Len(KerXs) |->
+            LET x == KerXs[i]  rhs == E1p!Rhs(x)  y == FqSqrtCand(rhs) IN
+            IF FqSqr(y) = rhs THEN << <<x, y>>, <<x, FqNeg(y)>> >> ELSE <<>>])
+KerInputs == FlattenSeq([i \in 1..Len(KerPts) |-> SwuPre(KerPts[i])])
+ASSUME Len(KerInputs) >= 4
+ASSUME \A i \in 1..Len(KerInputs) : Iso("G1", SSWU("G1", KerInputs[i])) = <<>> /\ MapToCurve("G1", KerInputs[i]) = <<>>
+Generic1 == FqPow(<<5>>, <<4321>>)
+KerOps ==
+  FlattenSeq([i \in 1..Len(KerInputs) |->
+     << [op |-> "map", g |-> "G1", u |-> KerInputs[i], cls |-> "swu-image-in-isogeny-kernel"],
+        [op |-> "map2", g |-> "G1", u0 |-> KerInputs[i], u1 |-> Generic1, cls |-> "one-swu-image-in-kernel"],
+        [op |-> "map2", g |-> "G1", u0 |-> FqNeg(Generic1), u1 |-> KerInputs[i], cls |-> "one-swu-image-in-kernel"],
+        [op |-> "map2", g |-> "G1", u0 |-> KerInputs[i], u1 |-> KerInputs[1 + (i % Len(KerInputs))], cls |-> "both-swu-images-in-kernel"] >>])
 
 RECURSIVE WriteChunks(_,_,_,_)
 WriteChunks(name, s, n, k) ==
@@ -63,4 +85,5 @@ WriteChunks(name, s, n, k) ==
        /\ ndJsonSerialize(OutDir \o "/" \o name \o "-" \o ToString(k) \o ".script.ndjson", SubSeq(s, 1, m))
        /\ WriteChunks(name, SubSeq(s, m + 1, Len(s)), n, k + 1)
 ASSUME WriteChunks("map-g1-insub", InSubOps, 5, 100)
+ASSUME WriteChunks("map-g1-kernel", KerOps, 8, 100)
 =============================================================================
